@@ -151,7 +151,7 @@ struct ListWorld : World {
 
     Result sut_apply(const Op &op, Ctx &x) override {
         qlist_t *b = base();
-        size_t n = b->size(b);
+        size_t n = mt ? 0 : b->size(b);      // size() reads the length without the lock: not for thread programs (indexes are absolute there)
         int idx = index_of(op.a, n, mt);
         int api = op.d & 7;
         switch (op.k) {
